@@ -13,6 +13,7 @@ def run(ctx):
     behs = behaviours(ctx, SPEC, "MC_Checkpointer", "Beh_Checkpointer.cfg")            # all behaviours of a small instance
     behs += behaviours(ctx, SPEC, "MC_Checkpointer", "Sim_Checkpointer.cfg", num=300 if ctx.quick() else 3000, depth=14)
     replay_and_validate(ctx, behs)
+    system_level(ctx)
     ctx.cov["rule"] = ("behaviours = every action sequence of length 4 over 4 tokens x thresholds {0,100} plus seeded TLC simulations of length 12 over "
                        "all emitted-form tokens of 0..2; non-trivial = contains a Tick that returned a checkpoint")
     ctx.assumptions += ["tokens enter only through SequenceID.Before / equality: rank compression is property-preserving",
@@ -61,3 +62,55 @@ def locate(rows, line, behs):
         if r["a"] == "Reset":
             idx = r["beh"]
     return idx, (behs[idx] if idx is not None else None)
+
+
+def system_level(ctx):
+    """real push + pull replications (rest package); hook H6 events validated against the same spec."""
+    raw = os.path.join(ctx.scratch, "c17-sys-raw.ndjson")
+    rc, out = go_test(ctx, "rest", "^TestVerif_C17_System$", ["harness/rest/c17_system_test.go"], env={"VERIF_TRACE_OUT": raw}, timeout=900)
+    if rc != 0 or not os.path.exists(raw):
+        raise Inconclusive("C17 system harness failed:\n" + harness_failure(out))
+    evs = read_ndjson(raw)
+    objs = {}
+    for e in evs:
+        objs.setdefault(e["obj"], []).append(e)
+    lines, ninst, nticks = [], 0, 0
+    for obj, es in objs.items():
+        es.sort(key=lambda e: e["n"])
+        vals = {0}
+        for e in es:
+            for f in ("toks", "E", "P", "ret"):
+                for t in e.get(f, []) or []:
+                    vals.update(t)
+        rank = {v: i for i, v in enumerate(sorted(vals))}
+        rk = lambda ts: [[rank[x] for x in t] for t in (ts or [])]
+        th = next((e["th"] for e in es if e["ev"] == "Tick"), 100)
+        lines.append({"a": "Reset", "th": th, "beh": obj})
+        ninst += 1
+        for e in es:
+            if e["ev"] in ("Expect", "AlreadyKnown", "Processed"):
+                lines.append({"a": e["ev"], "toks": rk(e["toks"]), "E": rk(e["E"]), "P": sorted(rk(e["P"]))})
+            elif e["ev"] == "Tick":
+                r = rk(e["ret"])
+                lines.append({"a": "Tick", "ret": r[0] if r else [], "E": rk(e["E"]), "P": sorted(rk(e["P"]))})
+                nticks += 1 if r else 0
+    if nticks == 0:
+        raise Inconclusive("system-level run produced no checkpoint (hook H6 not firing?)")
+    tr = os.path.join(ctx.scratch, "c17-sys.ndjson")
+    write_ndjson(tr, lines)
+    ctx.cov["evaluations"] += ninst
+    ctx.cov["distinct_nontrivial"] += ninst
+    ctx.cov["system_level"] = {"checkpointer_instances": ninst, "events": len(lines), "ticks_with_checkpoint": nticks}
+    vp = validate(ctx, SPEC, "Trace_Checkpointer", "Trace_Checkpointer_P.cfg", tr, tag="sysP")
+    if vp.inv:
+        report_violation(ctx, "system:%s" % vp.inv, "real replication run: checkpointer breaks %s at event %s" % (vp.inv, vp.line),
+                         {"invariant": vp.inv, "events": lines[max(0, (vp.line or 1) - 12):(vp.line or 1)], "state": (vp.state or {}).get("_txt")})
+        return
+    if not vp.accepted:
+        raise Inconclusive("system trace: pass P stopped at line %s of %s\n%s" % (vp.line, vp.total, vp.out[-1500:]))
+    vc = validate(ctx, SPEC, "Trace_Checkpointer", "Trace_Checkpointer_C.cfg", tr, tag="sysC")
+    if vc.inv or not vc.accepted:
+        ctx.cov["nonconformance"] += 1
+        ctx.notes.append("system trace pass C rejected at line %s (%s)" % (vc.line, vc.inv))
+    else:
+        ctx.cov["traces_validated_against_impl"] += ninst
